@@ -233,6 +233,16 @@ def run_deductive(pid, plan, repo, tier, seed, replay_dir):
         solver_time_s=round(solver_time, 3), samples=samples, refuted=refuted_names, mutation_selftest=mut,
         deductive_wall_s=round(time.time() - t0, 2),
     )
+    if tier == "thorough" and not violations and os.environ.get("PYVC_NO_PROBE") != "1":
+        # contract-strength probe: how much of a change inside the statements under contract is noticed (information, never a verdict)
+        try:
+            from checks import automut
+            pr = automut.probe(pid, max_per_fn=int(os.environ.get("PYVC_PROBE_PER_FN", "4")), seed=seed, repo=repo, verbose=False,
+                               budget_s=float(os.environ.get("PYVC_PROBE_BUDGET_S", "900")))
+            pr.pop("report", None)
+            cov["contract_strength_probe"] = pr
+        except Exception as e:  # noqa
+            cov["contract_strength_probe"] = {"error": "%s: %s" % (type(e).__name__, e)}
     return dict(violations=violations, undecided=undecided, coverage=cov, assumptions=sorted(assumptions))
 
 
